@@ -5,8 +5,8 @@ Proof (coq/Props/C18.v):
     over the schedule); the discipline is decided by vm_compute on the step lists that
     translator/units_locks.py extracts from /repo on every run (coq/Gen/Locks.v);
   * RSA blinding invariant and correctness of every concurrent private-key call;
-  * sequential SessionCache = abstract log specification for histories with pairwise distinct
-    stored IDs (_partial), refuted with a witness for repeated IDs (known finding).
+  * sequential SessionCache (repaired code with entriesSlot/_drop) = abstract log specification
+    for ALL histories with a monotone clock, size bound, no internal error.
 Tie: Gen/Locks.v regenerated from the ast; the hand-written sequential model is evaluated by
 vm_compute on the histories the real SessionCache ran (state + outcome after every call);
 real threads are driven through systematic schedules (harness/c18_sched.py) and checked against
@@ -30,8 +30,7 @@ META = {
             'SessionCache, BaseDB/VerifierDB and Python_RSAKey._rawPrivateKeyOp on every run; (2) the blinding pair '
             'invariant is preserved and every concurrent private-key call returns m^d mod n; (3) the sequential '
             'SessionCache model refines the abstract log specification, is size-bounded and raises no internal error for '
-            'all histories with a monotone clock and pairwise distinct stored IDs; the unrestricted statements are '
-            'refuted by a witness (same ID stored twice) that is replayed on the real class.',
+            'ALL histories with a monotone clock (repeated IDs included; maxEntries >= 1, the guard is shown necessary).',
     'note': 'Trusted: Coq kernel + vm_compute; translator/units_locks.py (what counts as a shared access; conservative, '
             'fail-closed); the hand-written sequential model Model/C18_Cache.v (tied by per-call state comparison on every '
             'run, not by translation); CPython executes one extracted step atomically w.r.t. the lock (GIL granularity is '
@@ -146,6 +145,11 @@ def cache_scenarios(rng, k):
              threads=[[('put', 2, 102), ('get', 1)], [('put', 3, 103), ('get', 2)]]),
         dict(n=2, max_age=2, pre=[('put', 1, 101)],
              threads=[[('get', 1), ('get', 1)], [('put', 2, 102), ('get', 1)]]),
+        # the same ID stored again, concurrently with lookups and an evicting store
+        dict(n=3, max_age=50, pre=[('put', 1, 101)],
+             threads=[[('put', 1, 102), ('get', 1)], [('put', 2, 103), ('get', 1)], [('put', 1, 104)]]),
+        dict(n=3, max_age=2, pre=[('put', 1, 101), ('put', 1, 102)],
+             threads=[[('get', 1), ('put', 2, 103)], [('put', 3, 104), ('get', 1)]]),
     ]
     while len(out) < k:
         n = rng.choice([2, 3, 4])
@@ -156,6 +160,7 @@ def cache_scenarios(rng, k):
             nid += 1
         nth = rng.choice([2, 2, 3])
         threads = []
+        sid = [0]
         budget = 6
         for _ in range(nth):
             ops = []
@@ -164,8 +169,12 @@ def cache_scenarios(rng, k):
                     break
                 budget -= 1
                 if rng.random() < 0.45:
-                    ops.append(('put', nid, 100 + nid))
-                    nid += 1
+                    sid[0] += 1
+                    if nid > 1 and rng.random() < 0.3:       # store an ID again (new session object)
+                        ops.append(('put', rng.randrange(1, nid), 200 + sid[0]))
+                    else:
+                        ops.append(('put', nid, 200 + sid[0]))
+                        nid += 1
                 else:
                     ops.append(('get', rng.randrange(1, nid + 1)))
             threads.append(ops or [('get', 1)])
@@ -272,16 +281,16 @@ def sequential_stage(ctx, res, n_hist, maxlen):
                 continue
             if C.check_history(n, a, h, all_obs[i]) is None:
                 tie = 'Spec/C18_CacheSpec.v disagrees with the Python property oracle on n=%d maxAge=%d history=%r' % (n, a, h)
-        # the Coq witnesses are the histories replayed here
+        # the former refutation witnesses (now regression histories) are replayed here
         wl = ['all_match (trace (init_world 3 100) dup_history) [%s]' % ';'.join(
                   C.obs_lit(o) for o in C.run_history_impl(*DUP_WITNESS)),
               'all_match (trace (init_world 2 100) leak_history) [%s]' % ';'.join(
                   C.obs_lit(o) for o in C.run_history_impl(*LEAK_WITNESS))]
         badw, errs = vlib.coq_bad_indices('C18w', ['Base.C18_Lib', 'Model.C18_Cache', 'Spec.C18_CacheSpec',
                                                    'Proofs.C18_CacheWit'], 'bool', '(fun b : bool => b)', wl, shard=4)
-        ctx.count('coq-witness-replayed-on-impl', len(wl), [('ok', len(wl) - len(badw))])
+        ctx.count('coq-regression-histories-on-impl', len(wl), [('ok', len(wl) - len(badw))])
         if errs or badw:
-            tie = 'the refutation witnesses of Proofs/C18_CacheWit.v do not replay on the real SessionCache: %s %s' % (badw, errs[:1])
+            tie = 'the regression histories of Proofs/C18_CacheWit.v differ between model and real SessionCache: %s %s' % (badw, errs[:1])
     else:
         tie = 'sequential model does not compile: %s' % res.get('failing')
     return found, tie
@@ -293,7 +302,7 @@ def explore_all(ctx, quick, deep):
     found = False
     depth = 1 if quick else 2
     # ---- SessionCache
-    scns = cache_scenarios(rng, 6 if quick else 12)
+    scns = cache_scenarios(rng, 8 if quick else 14)
     budget = (200 if quick else 800) * (3 if deep else 1)
     t0 = time.time()
     nruns = 0
